@@ -18,7 +18,7 @@
 EXTENDS Naturals, FiniteSets, TLC
 CONSTANTS VisitTypes,   \* {"random", "dataframe", "other"}
           PNs,          \* patient_number: {"pos", "one", "zero", "neg", "str", "none", "true", "float"}
-          Stds,         \* the three *_std: {"ok", "neg"}
+          Stds,         \* the three *_std: {"ok", "neg", "true" (the boolean True where a number is documented)}
           DMeans,       \* distance_visit_mean: {"pos", "zero", "neg"}
           DStds,        \* distance_visit_std: {"pos", "zero", "large"} ("large": comparable to the mean, ages go back and forth)
           Spacings,     \* min_spacing_between_visits: {"absent", "one", "tenth", "tiny", "neg", "str"}
